@@ -1779,6 +1779,7 @@ func (t *tScreen) scanInput(buf *bytes.Buffer, expire bool, stopQ chan struct{})
 			return
 		case <-stopQ:
 			// Suspend: the application may not be polling any more
+			verifPoint("scan-stop", len(t.eventQ), cap(t.eventQ))
 			return
 		}
 	}
@@ -1973,6 +1974,7 @@ func (t *tScreen) inputLoop(stopQ chan struct{}) {
 				case <-t.quit:
 					verifPoint("in-err-quit")
 				case <-stopQ:
+					verifPoint("in-err-stop")
 				}
 			}
 			return
@@ -1984,6 +1986,7 @@ func (t *tScreen) inputLoop(stopQ chan struct{}) {
 				verifPoint("in-sent", len(t.keychan), cap(t.keychan))
 			case <-stopQ:
 				// mainLoop may be gone already: do not wait for room
+				verifPoint("in-send-stop")
 				return
 			}
 		}
